@@ -278,59 +278,78 @@ def _eval_cases(ck: Ck, fn: str, ty: str, cases: list[str], name: str, imports: 
     return bad
 
 
-def run_correspondences(ck: Ck, gens: list) -> None:
+def start_correspondences(ck: Ck, gens: list) -> tuple[Any, list]:
     """Each correspondence is a generator: it produces its cases on the implementation (main thread, in the fixed order that keeps
-    ck.rng deterministic), yields the evaluation requests for the model, and is resumed with the lists of disagreeing cases.  The
-    coqc runs of all correspondences overlap (at most 4 at a time)."""
+    ck.rng deterministic), yields the evaluation requests for the model, and is resumed (finish_correspondences) with the lists of
+    disagreeing cases.  The coqc runs of all correspondences overlap with each other (at most 4 at a time) and with whatever the main
+    thread does until finish_correspondences is called (the search on the implementation)."""
     from concurrent.futures import ThreadPoolExecutor
     pending = []
-    with ThreadPoolExecutor(max_workers=4) as ex:
-        for g in gens:
-            name = getattr(g, '__name__', 'correspondence')
-            try:
-                # the cases are produced by calling the implementation: a fault that makes it loop (a decoder that does not advance, a
-                # table search that never ends) must end as a failing input, not as a hung check.  Producing the cases of one
-                # correspondence takes 1-8 s (quick) / up to 2 min (thorough) on a loaded machine.
-                with U.time_limit(ck.budget(150, 3000)):
-                    reqs = next(g)
-            except StopIteration:
-                continue
-            except Exception as e:      # noqa: BLE001
-                # an unexpected exception raised INSIDE the implementation while the cases are produced is a finding with a replay (the
-                # call stack), not an internal error of the check; an exception raised by the check's own code is re-raised
-                tb = __import__('traceback').extract_tb(e.__traceback__)
-                if not tb or '/srctools/' not in tb[-1].filename:
-                    raise
-                ck.obligation('correspondence:' + name.replace('corr_', ''), False, f'the implementation raised {type(e).__name__} while the cases were produced')
-                ck.violation('crash:' + name, f'{type(e).__name__}: {e} raised inside the implementation on an input generated by {name}'[:300],
-                             {'stage': name, 'error': f'{type(e).__name__}: {e}'[:300], 'how': f'checks/c11.py {name}: run the check',
-                              'stack': [f'{f.filename.split("/")[-1]}:{f.lineno} {f.name}' for f in tb][-6:]})
-                ck.explain('correspondence:' + name.replace('corr_', ''))
-                continue
-            except U.ImplTimeout as e:
-                ck.obligation('correspondence:' + name.replace('corr_', ''), False, f'the implementation did not return while the cases were produced: {e}')
-                ck.violation('hang:' + name, f'a call into the implementation made by {name} did not return ({e}); the call stack at the time is in the replay',
-                             {'stage': name, 'how': f'checks/c11.py {name}: run the check; the stage calls the implementation on generated inputs',
-                              'stack': [f'{f.filename.split("/")[-1]}:{f.lineno} {f.name}' for f in __import__('traceback').extract_tb(e.__traceback__)][-6:]})
-                ck.explain('correspondence:' + name.replace('corr_', ''))
-                continue
-            pending.append((g, [ex.submit(_eval_cases, ck, fn, ty, cases, name, imp, pre) for fn, ty, cases, name, imp, pre in reqs]))
+    ex = ThreadPoolExecutor(max_workers=4)
+    for g in gens:
+        name = getattr(g, '__name__', 'correspondence')
+        try:
+            # the cases are produced by calling the implementation: a fault that makes it loop (a decoder that does not advance, a
+            # table search that never ends) must end as a failing input, not as a hung check.  Producing the cases of one
+            # correspondence takes 1-8 s (quick) / up to 2 min (thorough) on a loaded machine.
+            with U.time_limit(ck.budget(150, 3000)):
+                reqs = next(g)
+        except StopIteration:
+            continue
+        except Exception as e:      # noqa: BLE001
+            # an unexpected exception raised INSIDE the implementation while the cases are produced is a finding with a replay (the
+            # call stack), not an internal error of the check; an exception raised by the check's own code is re-raised
+            tb = __import__('traceback').extract_tb(e.__traceback__)
+            if not tb or '/srctools/' not in tb[-1].filename:
+                ex.shutdown(wait=False, cancel_futures=True)
+                raise
+            ck.obligation('correspondence:' + name.replace('corr_', ''), False, f'the implementation raised {type(e).__name__} while the cases were produced')
+            ck.violation('crash:' + name, f'{type(e).__name__}: {e} raised inside the implementation on an input generated by {name}'[:300],
+                         {'stage': name, 'error': f'{type(e).__name__}: {e}'[:300], 'how': f'checks/c11.py {name}: run the check',
+                          'stack': [f'{f.filename.split("/")[-1]}:{f.lineno} {f.name}' for f in tb][-6:]})
+            ck.explain('correspondence:' + name.replace('corr_', ''))
+            continue
+        except U.ImplTimeout as e:
+            ck.obligation('correspondence:' + name.replace('corr_', ''), False, f'the implementation did not return while the cases were produced: {e}')
+            ck.violation('hang:' + name, f'a call into the implementation made by {name} did not return ({e}); the call stack at the time is in the replay',
+                         {'stage': name, 'how': f'checks/c11.py {name}: run the check; the stage calls the implementation on generated inputs',
+                          'stack': [f'{f.filename.split("/")[-1]}:{f.lineno} {f.name}' for f in __import__('traceback').extract_tb(e.__traceback__)][-6:]})
+            ck.explain('correspondence:' + name.replace('corr_', ''))
+            continue
+        pending.append((g, [ex.submit(_eval_cases, ck, fn, ty, cases, name, imp, pre) for fn, ty, cases, name, imp, pre in reqs]))
+    return ex, pending
+
+
+def finish_correspondences(ex: Any, pending: list) -> None:
+    try:
         for g, futs in pending:
             try:
                 g.send([f.result() for f in futs])
             except StopIteration:
                 pass
+    finally:
+        ex.shutdown(wait=True)
 
 
 def theorems_parallel(ck: Ck, props_file: str, chunks: int = 4) -> None:
-    """ck.theorems (Print Assumptions of every theorem of the Props file) split over several coqc processes: one process needs about
-    0.4 s per theorem because every query walks the whole dependency closure again."""
+    """ck.theorems (Print Assumptions of every theorem of the Props file), cheaper: every single query walks the whole dependency
+    closure again (0.4-1 s per theorem, 25 s of CPU for 55 theorems).  First ONE query for the tuple of all theorems: its assumptions are
+    the union of theirs, so "Closed under the global context" for the tuple means closed for each.  Only if that is not the answer the
+    theorems are queried one by one (split over several coqc processes)."""
     import re
     from concurrent.futures import ThreadPoolExecutor
 
     from harness.common import ROCQ, _split_assumptions
     names = re.findall(r"^\s*(?:Theorem|Lemma|Corollary)\s+([A-Za-z0-9_']+)", (ROCQ / props_file).read_text(), re.M)
     mod = 'SV.' + props_file[:-2].replace('/', '.')
+    rc, out = ck.coq_scratch(f'Require Import {mod}.\nDefinition all_theorems_of_the_file := ({", ".join(names)}).\n'
+                             'Print Assumptions all_theorems_of_the_file.\n', 'assumptions_all')
+    if rc == 0 and _split_assumptions(out, 1)[0] == [] and 'Closed under the global context' in out:
+        for n in names:
+            ck.axioms[n] = []
+            ck.obligation(f'theorem:{n}', True, 'Qed; axioms: none (closed under the global context; one Print Assumptions of the tuple of all '
+                                                f'{len(names)} theorems of {props_file})')
+        return
     parts = [names[i::chunks] for i in range(chunks) if names[i::chunks]]
 
     def one(k: int) -> tuple[int, str]:
@@ -1327,9 +1346,15 @@ def run(ck: Ck) -> None:
     side = ck.extra.get('translated', {}).get('BspFormats_gen', {})
     ok_g = ck.translate('BspGlue_gen', c11_glue.translate)
     glue = ck.extra.get('translated', {}).get('BspGlue_gen', {})
+    # ck.build() runs the hygiene scan of all .v files (10 s of pure Python) the first time it is called; it is run here instead, once,
+    # in a thread next to the coqc processes that print the assumptions and discharge the instance obligations
+    ck._hygiene_done = True
     built = ok_t and ok_g and ck.build(['Props/C11.vo', 'Gen/BspFormats_gen.vo', 'Gen/BspGlue_gen.vo'])
+    from concurrent.futures import ThreadPoolExecutor
+    pool = ThreadPoolExecutor(max_workers=4)
+    fut_hyg = pool.submit(ck.hygiene)
     if built:
-        theorems_parallel(ck, 'Props/C11.v')
+        fut_thm = pool.submit(theorems_parallel, ck, 'Props/C11.v', 8)
         obs: dict[str, str] = {}
         for name, _appl, _r, _w in c11_formats.STREAMS:
             obs[f'lump_formats_agree:{name}'] = f'stream_ok_named layouts streams "{name}"'
@@ -1352,15 +1377,19 @@ def run(ck: Ck) -> None:
         obs['five_layout_tables'] = 'Nat.eqb (List.length layouts) 5'
         obs['every_format_string_is_in_the_modelled_language'] = (
             'forallb (fun l => forallb (fun kv => fmt_known (snd kv)) (snd l)) layouts')
-        lap('translate+build+assumptions')
-        ck.instance_obligations(IMPORTS, obs)
-        lap('instance_obligations')
+        lap('translate+build')
+        fut_o1 = pool.submit(ck.instance_obligations, IMPORTS, obs)
         gobs = glue_obligations(glue)
         res = ck.instance_obligations(IMPORTS_GLUE, gobs, name='glue')
         if not res.get('vis_row_size_reader_is_ceil8', True) or not res.get('vis_row_size_writer_is_ceil8', True):
             w = ck.coq_eval(IMPORTS_GLUE, ['rowsize_witnesses vis_row_reader', 'rowsize_witnesses vis_row_writer'], name='row_wit')
             ck.extra['vis_row_size_wrong_for_cluster_counts(reader, writer; below 64)'] = w
-        lap('glue_obligations')
+        fut_o1.result()
+        fut_thm.result()
+        lap('instance_obligations+assumptions')
+    fut_hyg.result()
+    pool.shutdown(wait=True)
+    lap('hygiene')
     base = str(ck.scratch / 'base.bsp')
     try:
         with U.time_limit(U.IMPL_TIME_LIMIT_BIG):
@@ -1376,14 +1405,28 @@ def run(ck: Ck) -> None:
         ck.explain('build:')
         return
     wd = str(ck.scratch)
+    ex = pending = None
+    ties_before = len(ck.tie_broken)
     if built:
-        run_correspondences(ck, [corr_struct(ck, side), corr_rowsize(ck), corr_rle(ck), corr_find(ck), corr_tex(ck, base), corr_ent(ck), corr_phys(ck, base), corr_deferred(ck)])
-        lap('correspondences')
-    reject_probes(ck, base, wd)
-    high_precision_delay_probe(ck, base, wd)
-    lap('reject_probes')
-    search(ck, base, wd)
-    lap('search')
+        ex, pending = start_correspondences(ck, [corr_struct(ck, side), corr_rowsize(ck), corr_rle(ck), corr_find(ck), corr_tex(ck, base), corr_ent(ck),
+                                                 corr_phys(ck, base), corr_deferred(ck)])
+        lap('correspondence_cases')
+    try:
+        # the coqc runs of the correspondences go on in the background while the implementation is searched
+        reject_probes(ck, base, wd)
+        high_precision_delay_probe(ck, base, wd)
+        lap('reject_probes')
+        search(ck, base, wd)
+        lap('search')
+    finally:
+        if ex is not None:
+            finish_correspondences(ex, pending)
+            lap('correspondence_results')
+    if len(ck.tie_broken) > ties_before and not ck.violations and not ck.thorough:
+        # a correspondence broke after the search had started with the small budget and nothing concrete was found: search again
+        # with the escalated budget (ck.budget now returns the thorough size)
+        search(ck, base, wd)
+        lap('search_escalated')
     # A failed obligation is explained by a concrete violation found on the implementation.
     keys = {v['key'] for v in ck.violations}
     if any(k.startswith('detail_props') for k in keys):
